@@ -1,6 +1,7 @@
 package c02
 
 import (
+	"bytes"
 	"fmt"
 	"math/rand/v2"
 	"os"
@@ -94,6 +95,24 @@ func runCase(r *mon.Rec, idx int, hits map[int]int) {
 	if rs := res.Tree.String(); rs != ws {
 		r.Violate("C02:wire-mismatch:"+tree.KindAt(ws, rs), "emitted bytes are not the RFC layout of the field values: "+tree.Diff(ws, rs), rp)
 		return
+	}
+	// A message that is printed between being decoded and being sent on (the library's debug loggers print every
+	// message they handle) encodes as it did before it was printed
+	{
+		var e1, e2 []byte
+		pan, val, st := mon.Guard(func() {
+			e1 = m2.ToBytes()
+			_, _ = m2.Summary(), m2.String()
+			e2 = m2.ToBytes()
+		})
+		if pan {
+			r.Violate("C02:panic:"+mon.LibFrame(st), fmt.Sprint(val), rp)
+			return
+		}
+		if !bytes.Equal(e1, e2) {
+			r.Violate("C02:printed-then-encoded-differently", "the decoded message encodes to other bytes after Summary()/String() than before", rp)
+			return
+		}
 	}
 	// Values with a history: the decoded message is edited in place (names of label sets element by element, octets of
 	// opaque values) and is then itself "a DHCPv6 message value": what it encodes to must decode to what it now holds.
